@@ -13,6 +13,16 @@ fn fnv(data: &[u8]) -> u64 {
 }
 
 impl Walrus {
+    /// Whether the writer mutexes of `topic` are held (false if the topic has no writer).
+    pub fn __verif_writer_locked(&self, topic: &str) -> bool {
+        self.writers
+            .read()
+            .ok()
+            .and_then(|m| m.get(topic).cloned())
+            .map(|w| w.verif_is_locked())
+            .unwrap_or(false)
+    }
+
     /// Clears the process-global block/file trackers (see `verif_reset_trackers`).
     pub fn __verif_reset_globals() {
         super::allocator::verif_reset_trackers();
